@@ -75,3 +75,12 @@ def r7_end_to_end(run, tree):
 
 
 RULES = [r1_inplace_twins, r2_out, r3_rhs_not_written, r4_deep_copies, r6_views, r7_end_to_end]
+
+
+def t_pair_space(run, tree):
+    run.rule("C17.T1", "thorough: every in-place operator over all ordered pairs of 15 units: same object, same buffer, right operand untouched, refusal leaves both operands unchanged", "D7 fold of the whole Array class (and Vector.to) with dispatching numpy models and symbolic-scale units, over the complete product of the unit list", "", floor=1)
+    from . import quantity_stack as qs
+    qs.check_unit_pair_space(run, tree, kinds=("strict-in", "free-in"))
+
+
+THOROUGH_RULES = [t_pair_space]
